@@ -73,7 +73,9 @@ func (p *Pubcomp) Unpack(r io.Reader) error {
 		if !ValidateCode(PUBCOMP, p.Code) {
 			return codes.ErrProtocol
 		}
-		return p.Properties.Unpack(bufr, PUBCOMP)
+		if err := p.Properties.Unpack(bufr, PUBCOMP); err != nil {
+			return err
+		}
 	}
-	return nil
+	return endOfPacket(bufr)
 }
